@@ -1,7 +1,7 @@
 #!/bin/bash
 # usage: tools/confirm_seeded.sh <ID> <variant-dir>  -> one line verdict; confirms a seeded change on a scratch worktree of /repo HEAD:
 # applies, demo FAILs with it, existing suite unchanged (only the 3 pre-existing environment failures), demo PASSes without it.
-ID=$1; DIR=$2; NAME=${ID}_$(basename $DIR)
+ID=$1; DIR=$(cd "$2" && pwd); NAME=${ID}_$(basename $DIR)
 WT=/tmp/seedwt/confirm.$NAME.$$
 mkdir -p /tmp/seedwt
 git -C /repo worktree add -q --detach "$WT" HEAD || exit 9
